@@ -28,6 +28,10 @@ pub fn generate(ctx: &mut Ctx) {
     let mut bi = 0u64;
     let pats = gen::pct_patterns(true);
     for (i, p) in pats.iter().enumerate() {
+        if ctx.tiny() && i % 8 != (ctx.seed % 8) as usize {
+            bi += 1;
+            continue;
+        }
         if ctx.mine(bi) {
             for kind in 2u64..=6 {
                 ctx.run(Case::new("comp").arg(p).num(kind));
@@ -54,7 +58,7 @@ pub fn generate(ctx: &mut Ctx) {
             bi += 1;
         }
     }
-    let n = ctx.by_tier(30_000u64, 1_500_000u64) / ctx.nshards;
+    let n = ctx.random_budget(320, 30_000, 1_500_000);
     for i in 0..n {
         let mut rng = ctx.rng("c19", i);
         let mut o = gen::Opts::new(rng.chance(1, 2));
